@@ -3,18 +3,20 @@ import JsonVerif.Model.SerdeJson
 namespace JsonVerif
 variable {SNum : Type}
 
--- well-formed serde_json values: object keys strictly ascending (what a BTreeMap holds)
+-- well-formed serde_json values: object keys strictly ascending (what a BTreeMap holds), numbers
+-- satisfying the representation invariant `P`
 mutual
-def SJ.WF (lt : List Char → List Char → Bool) : SJ SNum → Prop
-  | .array xs => SJ.WFL lt xs
-  | .object es => SJ.WFM lt es ∧ (es.map (·.1)).Pairwise (fun a b => lt a b = true)
+def SJ.WF (lt : List Char → List Char → Bool) (P : SNum → Prop) : SJ SNum → Prop
+  | .number n => P n
+  | .array xs => SJ.WFL lt P xs
+  | .object es => SJ.WFM lt P es ∧ (es.map (·.1)).Pairwise (fun a b => lt a b = true)
   | _ => True
-def SJ.WFL (lt : List Char → List Char → Bool) : List (SJ SNum) → Prop
+def SJ.WFL (lt : List Char → List Char → Bool) (P : SNum → Prop) : List (SJ SNum) → Prop
   | [] => True
-  | x :: xs => SJ.WF lt x ∧ SJ.WFL lt xs
-def SJ.WFM (lt : List Char → List Char → Bool) : List (List Char × SJ SNum) → Prop
+  | x :: xs => SJ.WF lt P x ∧ SJ.WFL lt P xs
+def SJ.WFM (lt : List Char → List Char → Bool) (P : SNum → Prop) : List (List Char × SJ SNum) → Prop
   | [] => True
-  | (_, x) :: es => SJ.WF lt x ∧ SJ.WFM lt es
+  | (_, x) :: es => SJ.WF lt P x ∧ SJ.WFM lt P es
 end
 
 /-- inserting a key larger than every key present appends it -/
@@ -39,46 +41,46 @@ theorem into_from (lt : List Char → List Char → Bool) (disp : SNum → List 
     (conv : List Char → Option SNum)
     (hirr : ∀ a, lt a a = false) (hasym : ∀ a b, lt a b = true → lt b a = false)
     (htr : ∀ a b c, lt a b = true → lt b c = true → lt a c = true)
-    (hnum : ∀ n, conv (disp n) = some n) :
-    ∀ x : SJ SNum, SJ.WF lt x → intoSj lt conv (fromSj disp x) = x
+    (P : SNum → Prop) (hnum : ∀ n, P n → conv (disp n) = some n) :
+    ∀ x : SJ SNum, SJ.WF lt P x → intoSj lt conv (fromSj disp x) = x
   | .null, _ => rfl
   | .bool _, _ => rfl
-  | .number n, _ => by simp [fromSj, intoSj, hnum]
+  | .number n, h => by simp [fromSj, intoSj, hnum n h]
   | .string _, _ => rfl
   | .array xs, h => by
-    simp only [fromSj, intoSj]; rw [into_fromL lt disp conv hirr hasym htr hnum xs h]
+    simp only [fromSj, intoSj]; rw [into_fromL lt disp conv hirr hasym htr P hnum xs h]
   | .object es, h => by
     simp only [fromSj, intoSj]
-    have := into_fromM lt disp conv hirr hasym htr hnum es [] h.1 (by simpa using h.2) (by simp)
+    have := into_fromM lt disp conv hirr hasym htr P hnum es [] h.1 (by simpa using h.2) (by simp)
     simpa using this
 theorem into_fromL (lt : List Char → List Char → Bool) (disp : SNum → List Char)
     (conv : List Char → Option SNum)
     (hirr : ∀ a, lt a a = false) (hasym : ∀ a b, lt a b = true → lt b a = false)
     (htr : ∀ a b c, lt a b = true → lt b c = true → lt a c = true)
-    (hnum : ∀ n, conv (disp n) = some n) :
-    ∀ xs : List (SJ SNum), SJ.WFL lt xs → intoSjL lt conv (fromSjL disp xs) = xs
+    (P : SNum → Prop) (hnum : ∀ n, P n → conv (disp n) = some n) :
+    ∀ xs : List (SJ SNum), SJ.WFL lt P xs → intoSjL lt conv (fromSjL disp xs) = xs
   | [], _ => rfl
   | x :: xs, h => by
     simp only [fromSjL, intoSjL]
-    rw [into_from lt disp conv hirr hasym htr hnum x h.1, into_fromL lt disp conv hirr hasym htr hnum xs h.2]
+    rw [into_from lt disp conv hirr hasym htr P hnum x h.1, into_fromL lt disp conv hirr hasym htr P hnum xs h.2]
 theorem into_fromM (lt : List Char → List Char → Bool) (disp : SNum → List Char)
     (conv : List Char → Option SNum)
     (hirr : ∀ a, lt a a = false) (hasym : ∀ a b, lt a b = true → lt b a = false)
     (htr : ∀ a b c, lt a b = true → lt b c = true → lt a c = true)
-    (hnum : ∀ n, conv (disp n) = some n) :
-    ∀ (es acc : List (List Char × SJ SNum)), SJ.WFM lt es →
+    (P : SNum → Prop) (hnum : ∀ n, P n → conv (disp n) = some n) :
+    ∀ (es acc : List (List Char × SJ SNum)), SJ.WFM lt P es →
       (es.map (·.1)).Pairwise (fun a b => lt a b = true) →
       (∀ l ∈ acc.map (·.1), ∀ k ∈ es.map (·.1), lt l k = true) →
       intoSjM lt conv (fromSjM disp es) acc = acc ++ es
   | [], acc, _, _, _ => by simp [fromSjM, intoSjM]
   | (k, x) :: es, acc, h, hs, hacc => by
     simp only [fromSjM, intoSjM]
-    rw [into_from lt disp conv hirr hasym htr hnum x h.1]
+    rw [into_from lt disp conv hirr hasym htr P hnum x h.1]
     rw [mapInsert_append lt hirr hasym k x acc (fun l hl => hacc l hl k (by simp))]
     have hs' : (∀ k' ∈ es.map (·.1), lt k k' = true) ∧ (es.map (·.1)).Pairwise (fun a b => lt a b = true) := by
       simp only [List.map_cons] at hs
       exact List.pairwise_cons.mp hs
-    rw [into_fromM lt disp conv hirr hasym htr hnum es (acc ++ [(k, x)]) h.2 hs'.2]
+    rw [into_fromM lt disp conv hirr hasym htr P hnum es (acc ++ [(k, x)]) h.2 hs'.2]
     · simp
     · intro l hl k' hk'
       simp only [List.map_append, List.map_cons, List.map_nil, List.mem_append, List.mem_singleton] at hl
